@@ -8,8 +8,8 @@ from harness import zones as Z
 
 ID = "C03"
 BACKENDS = ("py", "rs")
-GEN_MODULES = ("Tables", "Helpers", "AddDuration")
-MIN_THEOREMS = 9
+GEN_MODULES = ("Tables", "Helpers", "AddDuration", "DTArith")
+MIN_THEOREMS = 17
 US = D.US
 YMAX = Z.YMAX_QUICK
 MODES = ("add", "subtract", "plus_td", "radd_td", "minus_td", "roundtrip")
